@@ -218,7 +218,9 @@ pub fn run(seed: u64, out: &str, millis: u64) -> bool {
         }
         let tokens = next_token.load(Ordering::SeqCst);
         let reads = seq.load(Ordering::SeqCst);
-        if tokens < 50 || reads < 50 { violations.lock().unwrap().push(format!("C18/hang stress round {} made no progress: {} writes, {} events", round, tokens, reads)); }
+        // (no floor on the writes alone: DashMap's shard lock does not prefer writers, and three readers hammering three keys
+        // can keep the worker waiting for most of a short round on the unchanged crate — seen once: 13 writes against a million reads)
+        if tokens + reads < 50 { violations.lock().unwrap().push(format!("C18/hang stress round {} made no progress: {} writes, {} events", round, tokens, reads)); }
         sink.both(&format!("# case stress round={} shards={} cmdcap={} max={} tokens={} events={}", round, shards, cmdcap, max, tokens, reads));
         let found = violations.lock().unwrap().clone();
         let mut distinct: Vec<String> = Vec::new();
@@ -307,7 +309,7 @@ fn cold_put_under_drain(sink: &mut Sink, millis: u64) -> bool {
     }
     stop.store(true, Ordering::SeqCst);
     let reads = match reader.join() { Ok(reads) => reads, Err(_) => { found.push("C17/caller-panic under consumer load: the reading thread panicked".to_string()); 0 } };
-    if !accepted || !warmed || puts < 10 {
+    if !accepted || !warmed || puts < 1 {
         found.push(format!("C18/hang under consumer load: the phase did not get going (resident accepted: {}, first batch delivered within 30 s: {}, cold puts completed: {})", accepted, warmed, puts));
     }
     if accepted && warmed && found.is_empty() && cache.get(&hot) != Some(100) {
@@ -372,7 +374,7 @@ fn hammer(sink: &mut Sink, millis: u64) -> bool {
         }
     }
     if refused_writes.load(Ordering::SeqCst) > 0 { found.push("C17/worker-died hammer: a put was refused with Err although shutdown() had not been called (the command executor is gone)".to_string()); }
-    if records.len() < 100 { found.push(format!("C18/hang hammer: eight writer threads completed only {} calls", records.len())); }
+    if records.is_empty() { found.push(format!("C18/hang hammer: eight writer threads completed only {} calls", records.len())); }
     let (mut accepted_puts, mut accepted_deletes, mut refused) = (0u64, 0u64, 0u64);
     let mut expected_live: std::collections::BTreeSet<u64> = std::collections::BTreeSet::new();    // after everything expired
     let mut expected_held: u64 = 0;                                                                   // before anything expired
